@@ -265,3 +265,14 @@ Check standard_output_nul_free_reader :
     render_ok render b -> texts_free cfg b ->
     hides lcfg b -> (forall c buf, fst (c_roll c buf) <= length buf) ->
     ~ In b (ss_out (fst (fst (rbl_run (std_step cfg render) mode c_roll c_plan lcfg fuel lb0 rd core0 (st0, []))))).
+
+(* the source tie (DESIGN §4.2): `DecisionsLib.should_binary_quit` is regenerated on every run from the current text
+   of ReadByLine::should_binary_quit (crates/searcher/src/searcher/glue.rs).  Model/BinaryDetect.v inlines this
+   conjunction in rbl_fill (no model definition of its own), so the tie is to the hand-written copy of
+   Model/LibExpected.v — hence `_eq_expected`, not `_eq_model`. *)
+From RG Require Gen.DecisionsLib Model.LibExpected Proofs.GenLibProofs.
+Theorem should_binary_quit_generated_eq_expected : forall binary_offset_is_some quit_byte_is_some : bool,
+  DecisionsLib.should_binary_quit binary_offset_is_some quit_byte_is_some
+  = LibExpected.should_binary_quit_expected binary_offset_is_some quit_byte_is_some.
+Proof. exact GenLibProofs.should_binary_quit_eq. Qed.
+Print Assumptions should_binary_quit_generated_eq_expected.
